@@ -380,7 +380,9 @@ class Crazyflie():
                 pattern = expected_reply
                 if pattern in self._answer_patterns:
                     logger.debug('We want to resend and the pattern is there')
-                    if self._answer_patterns[pattern]:
+                    # The pattern can be removed by the incoming handler at
+                    # any time (the answer arrived), do not index
+                    if self._answer_patterns.get(pattern):
                         new_timer = Timer(timeout,
                                           lambda:
                                           self._no_answer_do_retry(
